@@ -130,6 +130,12 @@ impl ClientSessionsCounter {
             .client_sessions
             .with_label_values(&[protocol.as_str()])
             .inc();
+        #[cfg(trusttunnel_verif)]
+        crate::verif_emit!(
+            "Gauge",
+            "\"name\":\"client_sessions\",\"label\":\"{}\",\"delta\":1",
+            protocol.as_str()
+        );
 
         Self { metrics, protocol }
     }
@@ -141,12 +147,23 @@ impl Drop for ClientSessionsCounter {
             .client_sessions
             .with_label_values(&[self.protocol.as_str()])
             .dec();
+        #[cfg(trusttunnel_verif)]
+        crate::verif_emit!(
+            "Gauge",
+            "\"name\":\"client_sessions\",\"label\":\"{}\",\"delta\":-1",
+            self.protocol.as_str()
+        );
     }
 }
 
 impl OutboundTcpSocketCounter {
     fn new(metrics: Arc<Metrics>) -> Self {
         metrics.outbound_tcp_sockets.inc();
+        #[cfg(trusttunnel_verif)]
+        crate::verif_emit!(
+            "Gauge",
+            "\"name\":\"outbound_tcp_sockets\",\"label\":\"\",\"delta\":1"
+        );
         Self { metrics }
     }
 }
@@ -154,6 +171,11 @@ impl OutboundTcpSocketCounter {
 impl Drop for OutboundTcpSocketCounter {
     fn drop(&mut self) {
         self.metrics.outbound_tcp_sockets.dec();
+        #[cfg(trusttunnel_verif)]
+        crate::verif_emit!(
+            "Gauge",
+            "\"name\":\"outbound_tcp_sockets\",\"label\":\"\",\"delta\":-1"
+        );
     }
 }
 
